@@ -10,7 +10,7 @@ import (
 
 func init() {
 	register(&Rule{ID: "R40", Name: "CALLBACK-ORDER", Floor: 30,
-		Text: "every call of a user-supplied function value (a func-typed parameter, or a type assertion/switch on an interface-typed parameter such as Instruction.Fn, Filter.Comparator, Aggregation.Fn) in the column packages and the root package happens inside a loop, and every loop enclosing it ranges over a row index (index.Int, index.Bool or []index.Int): the callback runs once per row of the frame, in frame order, never per physical slot or per distinct value",
+		Text: "every call of a user-supplied function value (a func-typed parameter, or a type assertion/switch on an interface-typed parameter such as Instruction.Fn, Filter.Comparator, Aggregation.Fn) in the column packages and the root package happens inside a loop, and every loop enclosing it ranges over a row index (index.Int, index.Bool or []index.Int): the callback runs once per row of the frame, in frame order, never per physical slot or per distinct value; and, except in filter kernels that range over the boolean accumulator and skip rows already decided, the call dominates every back edge of its innermost row loop, so no row is skipped (null rows included) and no result is reused from another row",
 		Run:  runR40})
 	register(&Rule{ID: "R42", Name: "ROW-ALIGN", Floor: 80,
 		Text: "(6b) a fresh slice written at physical positions is allocated with the column's physical length (len of column storage or a Column.Len()), not the index length; (6c) a value stored at position p (or at row k of a boolean index) is computed only from cells read at that same position p (resp. at index[k] for the same k): source and destination are the same row",
@@ -170,6 +170,26 @@ func runR40(c *Ctx) {
 			if n == 0 {
 				c.bad(key, pos, fmt.Sprintf("user callback (%s) is invoked outside any per-row loop", how))
 				return
+			}
+			// executed on every iteration of the innermost row loop: the call dominates every back edge
+			var inner *loopInfo
+			for i := range loops {
+				li := &loops[i]
+				if inLoop(*li, in.Block()) && (inner == nil || inner.header.Dominates(li.header)) {
+					inner = li
+				}
+			}
+			for _, pred := range inner.header.Preds {
+				if inner.base != nil && isBoolIndex(inner.base.Type()) {
+					break // filter kernels range over the boolean accumulator and skip rows already decided (R3)
+				}
+				if !inner.header.Dominates(pred) {
+					continue // loop entry edge
+				}
+				if !(in.Block() == pred || in.Block().Dominates(pred)) {
+					c.bad(key, pos, fmt.Sprintf("user callback (%s) is not invoked on every iteration of its row loop: an iteration can reach the next one (via %s) without the call - rows are skipped or results are memoised per value", how, p.pos(pred.Instrs[len(pred.Instrs)-1].Pos())))
+					return
+				}
 			}
 			c.ok(key, pos, fmt.Sprintf("%s; %d enclosing loop(s), all ranging over a row index", how, n))
 		})
